@@ -51,6 +51,21 @@ def run(ctx, rep):
                        for b2, t2 in seeks):
                 ok = False
                 why.append('no seek to offset_from_cluster(new cluster) before zeroing')
+        # ... and on the `zero` arm no Ok exit avoids the zero-fill
+        if ok:
+            from analyses import Must, error_blocks
+            mz = Must(facts, lambda f, b, t, names: (t.get('callee') or '').endswith('fs::write_zeros'))
+            cutz = mz.crossing_edges(A, set())
+            zero_arm = set()
+            for bi in A.reachable():
+                tt = A.blocks[bi]['term']
+                if tt['k'] == 'switch' and op_place(tt['discr']) is not None and ('param', 3) in d.of_operand(tt['discr']):
+                    zero_arm |= set(nonzero_targets(tt))
+            if zero_arm:
+                reach = A.reach_from(sorted(zero_arm), cut_blocks=error_blocks(A), cut_edges=cutz)
+                if any(r in reach for r in A.return_blocks()):
+                    ok = False
+                    why.append('an Ok exit on the `zero` arm avoids the zero-fill')
         rep.oblige('R3.1', FS_ALLOC, ok=ok, nontrivial=True, sample={'fn': FS_ALLOC, 'problems': why})
         if not ok:
             rep.violation('R3.1', vkey('R3.1', FS_ALLOC, 'zero-fill', ''), A.loc(A.span),
